@@ -207,6 +207,8 @@ def main(tier, seed, only=None):
                    bounds="the 21 head-count columns of FAOSTAT_head_and_slaughter.csv (enumerated concretely)", symbolic="nothing (finite enumeration)", assumptions=[], stubs=[], outside=[])]
     from harness import history as H
     groups.append(dict(H.GROUP, cases=H.cases(thorough, seed)))
+    from harness import rowwiring as RW
+    groups.append(dict(RW.GROUP, cases=RW.cases()))
     vlib.run_groups(rep, MOD, groups, seed, only)
     return rep.finish()
 
